@@ -16,7 +16,8 @@ Quick == IOEnv.VERIF_TIER = "quick"
 Backends == {"A", "B"}
 \* (okcont: a rule that uses the contains modifier; probe custmod: a rule that uses a modifier of the USER, derived from it)
 Kinds == {"ok1", "okstate", "failP", "failPH", "failC", "neqok", "neqfail", "direct", "phfile", "okcont"}
-ProbeKinds == {"ok1", "okstate", "neqok", "ok2", "direct", "phfile", "optph", "custmod"}
+\* (casedct: a case-sensitive contains value - one of the templates the not-equals context swaps on the class)
+ProbeKinds == {"ok1", "okstate", "neqok", "ok2", "direct", "phfile", "optph", "custmod", "casedct"}
 Ops(have) == {<<"new", b, s>> : b \in Backends \ have, s \in BOOLEAN}
              \cup {<<"init", b>> : b \in have}
              \cup {<<"rule", b, k>> : b \in have, k \in Kinds}
